@@ -4,7 +4,7 @@
 cd "$(dirname "$0")/.."
 python3 - <<'PY'
 import json
-k=json.load(open('known_findings.json')); k['findings']=[f for f in k['findings'] if f['property'] in ()]
+k=json.load(open('known_findings.json')); k['findings']=[f for f in k['findings'] if f['property'] in ('C13','C14','C15','C16','C17','C18','C19','C20')]
 json.dump(k,open('known_findings.json','w'),indent=1)
 PY
 desc() { case "$1" in
